@@ -72,9 +72,23 @@ fn check_text<T: Plain>(t: &[u8]) -> Result<&'static str, String> {
     let rule = rt::Rule { cap1: 64, cap2: T::CAP2, count_normalized: T::NORM && !crate::c04::STRICT, strict: crate::c04::STRICT };
     let p = match rt::parse(t, rule) {
         Ok(p) => p,
-        Err(_) => return Ok("not-accepted"),
+        Err(_) => {
+            // a text the grammar rejects must be rejected by the string-trait entry point as well
+            if let Ok(st) = std::str::from_utf8(t) {
+                if let Ok(h) = guarded(|| T::parse_str(st))? {
+                    return Err(format!("str::parse accepts a text the grammar rejects (gives {})", h));
+                }
+            }
+            return Ok("not-accepted");
+        }
     };
     let h = guarded(|| T::parse_bytes(t))?.map_err(|e| format!("accepted text rejected: {:?}", e))?;
+    if let Ok(st) = std::str::from_utf8(t) {
+        let h2 = guarded(|| T::parse_str(st))?.map_err(|e| format!("accepted text rejected by str::parse: {:?}", e))?;
+        if h2 != h || !h2.full_eq(&h) {
+            return Err(format!("str::parse gives {} but from_bytes gives {}", h2, h));
+        }
+    }
     let s = guarded(|| h.string())?;
     if T::NORM {
         let exp = rt::format(p.log, &refmodel::normalize(&p.bh1), &refmodel::normalize(&p.bh2));
